@@ -1,6 +1,6 @@
-\* exhaustive, thorough: at most 5 nuclides, histories of 7 operations (about 140 000 states)
+\* exhaustive, thorough: at most 4 nuclides, histories of 7 operations (about 30 000 states)
 CONSTANTS Cand <- CandAll  NatZ <- NatH  Spec <- SpecDump  MccData <- MccAll  NewLabels <- Labels1
-          MaxInst = 5  MaxLevel = 8  WithDestroy = FALSE
+          MaxInst = 4  MaxLevel = 8  WithDestroy = FALSE
 INIT Init
 NEXT Next
 CONSTRAINT Bound
